@@ -132,6 +132,18 @@ class OracleRO:
     def entropy(self, e):
         return OAtom('entropy', e)
 
+    def pexp(self, e, s):
+        return OAtom('pexp', e, params=parr(s))
+
+    def sumexp(self, e):
+        return OAtom('sumexp', e)
+
+    def sumlog(self, e):
+        return OAtom('sumlog', e)
+
+    def plog(self, e, s):
+        return OAtom('plog', e, params=parr(s))
+
     def sum(self, e, axis=None):
         return np.sum(e, axis=axis)
 
@@ -292,6 +304,18 @@ class RealRO:
 
     def entropy(self, e):
         return self.rso.entropy(e)
+
+    def pexp(self, e, s):
+        return self.rso.pexp(e, s)
+
+    def sumexp(self, e):
+        return self.rso.exp(e).sum()
+
+    def sumlog(self, e):
+        return self.rso.log(e).sum()
+
+    def plog(self, e, s):
+        return self.rso.plog(e, s)
 
     def sum(self, e, axis=None):
         return e.sum(axis=axis) if axis is not None else e.sum()
